@@ -64,7 +64,9 @@ class Tape:
         t = self.tape[self.i] if self.i < len(self.tape) else []
         self.i += 1
         t = list(t)[:n]
-        return t + [int(np.argmax(p))] * (n - len(t))
+        t = t + [int(np.argmax(p))] * (n - len(t))
+        # a recorded draw that is impossible for the probabilities at hand is replaced by a possible one
+        return [x if 0 <= x < len(p) and p[x] > 1e-12 * p.sum() else int(np.argmax(p)) for x in t]
 
 
 class FixedShuffle:
@@ -330,6 +332,107 @@ def check_plan(n, dm, plan, psi, nshots, chooser):
         got = list(res.samples(registers=True).keys())
         if got != ["register%d" % k_ for k_ in finals]:
             return "register names %r" % (got,)
+    return None
+
+
+def table_from_draws(ops, calls, perms):
+    """the shot table behind a fresh result, from the draws that were actually made."""
+    first = next((o for o in ops if o[0] != "probs"), None)
+    if first is not None and first[0] == "freqs":
+        allv = sorted(x for c in calls for x in c)
+        return [allv[i] for i in perms[0]] if perms else allv
+    return list(calls[0]) if calls else []
+
+
+def spec_views(regs, T, ops):
+    """python SPEC of every accessor as a view of the shot table T (canonical strings)."""
+    flat = [q for r in regs for q in r]
+    k = len(flat)
+    rows = [[(s >> (k - 1 - j)) & 1 for j in range(k)] for s in T]
+
+    def regrows(i):
+        a = sum(len(r) for r in regs[:i])
+        return [row[a:a + len(regs[i])] for row in rows]
+
+    def dec(row):
+        v = 0
+        for b in row:
+            v = 2 * v + b
+        return v
+
+    def dense(vals, m):
+        out = [0] * (2 ** m)
+        for v in vals:
+            out[v] += 1
+        return out
+
+    res = []
+    for op in ops:
+        if op[0] == "probs":
+            res.append("ok")
+        elif op[0] == "samples":
+            _, b, r = op
+            if r:
+                res.append(" ; ".join(_s([x for row in regrows(i) for x in row]) if b else _s([dec(row) for row in regrows(i)]) for i in range(len(regs))))
+            else:
+                res.append(_s([x for row in rows for x in row]) if b else _s(T))
+        elif op[0] == "freqs":
+            if op[2]:
+                res.append(" ; ".join(_s(dense([dec(row) for row in regrows(i)], len(regs[i]))) for i in range(len(regs))))
+            else:
+                res.append(_s(dense(T, k)))
+        elif op[0] == "rsamples":
+            rr = regrows(op[1])
+            res.append(_s([x for row in rr for x in row]) if op[2] else _s([dec(row) for row in rr]))
+        else:
+            res.append(_s(dense([dec(row) for row in regrows(op[1])], len(regs[op[1]]))))
+    return res
+
+
+def check_sampler(n, regs, psi, dm, nshots, seed, first):
+    """unpatched seeded sampler: support, sums, histogram and register consistency."""
+    nb = NumpyBackend()
+    flat = [q for r in regs for q in r]
+    psi = np.asarray(psi, dtype=complex)
+    c = Circuit(n, density_matrix=dm)
+    for r in regs:
+        c.add(gates.M(*r))
+    nb.set_seed(seed)
+    res = nb.execute_circuit(c, initial_state=(np.outer(psi, psi.conj()) if dm else psi.copy()), nshots=nshots)
+    if first == "freqs":
+        f0 = res.frequencies(binary=False)
+    rows = np.asarray(res.samples())
+    dec = [int(x) for x in res.samples(binary=False)]
+    fr = res.frequencies(binary=False)
+    frb = res.frequencies(binary=True)
+    marg = born_np(psi, n, flat)
+    if rows.shape != (nshots, len(flat)):
+        return "samples shape %r" % (rows.shape,)
+    if [int("".join(str(int(b)) for b in r), 2) for r in rows] != dec:
+        return "decimal samples are not the binary rows read big-endian"
+    if any(marg[d] <= 1e-12 for d in dec):
+        return "a sampled shot has probability zero"
+    if sum(fr.values()) != nshots or dict(fr) != dict(collections.Counter(dec)):
+        return "frequencies are not the histogram of the samples / do not sum to nshots"
+    if first == "freqs" and dict(f0) != dict(fr):
+        return "frequencies changed after samples were requested"
+    if {int(k, 2): v for k, v in frb.items()} != dict(fr) or any(len(k) != len(flat) for k in frb):
+        return "binary-key frequencies differ from decimal-key frequencies"
+    sr = res.samples(registers=True)
+    fr_r = res.frequencies(binary=False, registers=True)
+    pos = 0
+    for i, r in enumerate(regs):
+        nm = "register%d" % i
+        cols = rows[:, pos:pos + len(r)]
+        pos += len(r)
+        if not np.array_equal(np.asarray(sr[nm]), cols):
+            return "register %s samples are not the register's columns of the global samples" % nm
+        h = collections.Counter(int("".join(str(int(b)) for b in row), 2) for row in cols)
+        if dict(fr_r[nm]) != dict(h):
+            return "register %s frequencies are not the histogram of its samples" % nm
+    pr = np.asarray(res.probabilities(flat), dtype=float)
+    if not np.allclose(pr, marg, atol=1e-9):
+        return "probabilities(measured qubits) differ from the Born marginal"
     return None
 '''
 
@@ -712,10 +815,13 @@ def views_suite(ctx):
             bad += 1
             i, op, exp, got = problem
             key = f"views:{op_name(op).split('(')[0] if op else 'execute'}:{'registers' if op and op[0] in ('samples', 'freqs') and op[2] else 'global' if op and op[0] in ('samples', 'freqs') else 'gate'}:{path}"
-            py = (replay_header() + f"psi = np.array({psi.tolist()})\nops = {ops!r}\nperms = {perms!r}\n"
-                  f"outs, calls, _, names = run_views({n}, {regs!r}, {names!r}, psi, {nshots}, ops, Tape({calls!r}), "
-                  f"lambda L: (perms[0] if perms else list(range(L))), batch={batch!r}, dm={dm})\n"
-                  f"assert outs[{i}] == {exp!r}, (outs[{i}], {exp!r})\n")
+            py = (replay_header() + f"psi = np.array({psi.tolist()})\nops = {ops!r}\nrec = {perms!r}\n"
+                  f"outs, calls, perms, names = run_views({n}, {regs!r}, {names!r}, psi, {nshots}, ops, Tape({calls!r}), "
+                  f"lambda L: (rec[0] if rec and len(rec[0]) == L else list(range(L))), batch={batch!r}, dm={dm})\n"
+                  f"assert names == {exp_names!r}, names\n"
+                  f"T = table_from_draws(ops, calls, perms)\nassert len(T) == {nshots}, (T, calls)\n"
+                  f"exp = spec_views({regs!r}, T, ops)\n"
+                  f"assert outs == exp, [(i, ops[i], a, b) for i, (a, b) in enumerate(zip(outs, exp)) if a != b][:1]\n")
             ctx.fail(key, f"history {[op_name(o) for o in ops]} on registers {regs}: call #{i} {op_name(op) if op else ''} is not the view of the shot table",
                      py, expected=exp, observed=got, broken=["C03_corr_views"])
     ctx.ob("C03_corr_views", bad == 0, "correspondence", f"{bad} disagreements" if bad else "")
@@ -1023,7 +1129,16 @@ def collapse_circuits(ctx):
             if why is None:
                 # independent numpy SPEC on a fresh execution with fresh draws
                 pl_ = [("G", it[2][0].tolist(), list(it[2][1])) if it[0] == "G" else tuple(it) for it in plan]
-                why = H["check_plan"](n, dm, pl_, psi, nshots, support_chooser(ctx.rng))
+                log, base = [], support_chooser(ctx.rng)
+
+                def rec_chooser(p_, n_, log=log, base=base):
+                    out_ = base(p_, n_)
+                    log.append(out_)
+                    return out_
+
+                why = H["check_plan"](n, dm, pl_, psi, nshots, rec_chooser)
+                if why:
+                    calls = log
         except Exception as e:  # noqa
             why = f"{type(e).__name__}: {e}"
         if len(ctx.samples) < 10 and ri < 2:
@@ -1186,7 +1301,10 @@ def repeated_views(ctx):
             py = (replay_header() + f"c = Circuit({n})\n{build}be = OracleBackend(Tape({calls!r}))\nres = be.execute_circuit(c, nshots={nshots})\n"
                   f"ops = {ops!r}\nnames = [m.register_name for m in c.measurements]\n"
                   f"outs = [canon(op, call_op(op, res, handles), {regs!r}, names, {nshots}) for op in ops]\n"
-                  f"assert outs[{i}] == {exp!r}, (outs[{i}], {exp!r})\n")
+                  f"assert names == {names!r}, names\n"
+                  f"T = [int(x) for x in res.backend.samples_to_decimal(np.asarray(res.samples()), {sum(map(len, regs))})]\n"
+                  f"exp = spec_views({regs!r}, T, ops)\n"
+                  f"assert outs == exp, [(i, ops[i], a, b) for i, (a, b) in enumerate(zip(outs, exp)) if a != b][:1]\n")
             if op[0] == "probs":
                 flat = [q for r_ in regs for q in r_]
                 py = (replay_header() + f"c = Circuit({n})\n{build}be = OracleBackend(Tape({calls!r}))\nres = be.execute_circuit(c, nshots={nshots})\n"
@@ -1209,12 +1327,7 @@ def collapse_suite(ctx):
 
 
 def real_sampler_search(ctx):
-    import collections
-
-    from qibo import Circuit, gates
-
     rng = ctx.rng
-    nb = H["NumpyBackend"]()
     state0 = np.random.get_state()
     bad = 0
     try:
@@ -1223,73 +1336,21 @@ def real_sampler_search(ctx):
             regs = rng.choice(layouts(min(n, 4)))
             if n == 5 and rng.random() < 0.5:
                 regs = [[4 if q == regs[0][0] else q for q in r] for r in regs]
-            flat = [q for r in regs for q in r]
             psi = gi_state(rng, n, zeros=0.5)
             psi = psi / np.linalg.norm(psi)
             dm = rng.random() < 0.3
             nshots = rng.choice([1, 2, 7, 50, 300])
             seed = rng.randrange(2**31)
             first = rng.choice(["samples", "freqs"])
-            c = Circuit(n, density_matrix=dm)
-            for r in regs:
-                c.add(gates.M(*r))
-            st = np.outer(psi, psi.conj()) if dm else psi
-            nb.set_seed(seed)
             ctx.case(("sampler", n, tuple(map(tuple, regs)), nshots, first, seed))
             ctx.stat("sampler_" + first)
-            why = None
             try:
-                res = nb.execute_circuit(c, initial_state=st.copy(), nshots=nshots)
-                if first == "freqs":
-                    f0 = res.frequencies(binary=False)
-                rows = np.asarray(res.samples())
-                dec = [int(x) for x in res.samples(binary=False)]
-                fr = res.frequencies(binary=False)
-                frb = res.frequencies(binary=True)
-                marg = H["born_np"](psi, n, flat)
-                if rows.shape != (nshots, len(flat)):
-                    why = f"samples shape {rows.shape}"
-                elif [int("".join(str(int(b)) for b in r), 2) for r in rows] != dec:
-                    why = "decimal samples are not the binary rows read big-endian"
-                elif any(marg[d] <= 1e-12 for d in dec):
-                    why = "a sampled shot has probability zero"
-                elif sum(fr.values()) != nshots or dict(fr) != dict(collections.Counter(dec)):
-                    why = "frequencies are not the histogram of the samples / do not sum to nshots"
-                elif first == "freqs" and dict(f0) != dict(fr):
-                    why = "frequencies changed after samples were requested"
-                elif {int(k, 2): v for k, v in frb.items()} != dict(fr) or any(len(k) != len(flat) for k in frb):
-                    why = "binary-key frequencies differ from decimal-key frequencies"
-                else:
-                    sr = res.samples(registers=True)
-                    fr_r = res.frequencies(binary=False, registers=True)
-                    pos = 0
-                    for i, r in enumerate(regs):
-                        nm = f"register{i}"
-                        cols = rows[:, pos:pos + len(r)]
-                        pos += len(r)
-                        if not np.array_equal(np.asarray(sr[nm]), cols):
-                            why = f"register {nm} samples are not the register's columns of the global samples"
-                            break
-                        h = collections.Counter(int("".join(str(int(b)) for b in row), 2) for row in cols)
-                        if dict(fr_r[nm]) != dict(h):
-                            why = f"register {nm} frequencies are not the histogram of its samples"
-                            break
-                    pr = np.asarray(res.probabilities(flat), dtype=float)
-                    if why is None and not np.allclose(pr, marg, atol=1e-9):
-                        why = "probabilities(measured qubits) differ from the Born marginal"
+                why = H["check_sampler"](n, regs, psi, dm, nshots, seed, first)
             except Exception as e:  # noqa
                 why = f"{type(e).__name__}: {e}"
             if why:
                 bad += 1
-                py = (replay_header() + f"import collections\nnb = NumpyBackend()\npsi = np.array({psi.tolist()})\n"
-                      f"c = Circuit({n}, density_matrix={dm})\nfor r in {regs!r}:\n    c.add(gates.M(*r))\n"
-                      f"nb.set_seed({seed})\nres = nb.execute_circuit(c, initial_state=(np.outer(psi, psi.conj()) if {dm} else psi), nshots={nshots})\n"
-                      + ("f0 = res.frequencies(binary=False)\n" if first == "freqs" else "")
-                      + f"dec = [int(x) for x in res.samples(binary=False)]\nfr = res.frequencies(binary=False)\n"
-                      f"marg = born_np(psi, {n}, {flat})\nassert all(marg[d] > 1e-12 for d in dec)\n"
-                      f"assert sum(fr.values()) == {nshots} and dict(fr) == dict(collections.Counter(dec)), (fr, dec)\n"
-                      f"rows = np.asarray(res.samples()); sr = res.samples(registers=True); pos = 0\n"
-                      f"for i, r in enumerate({regs!r}):\n    assert np.array_equal(sr['register%d' % i], rows[:, pos:pos+len(r)]); pos += len(r)\n")
+                py = (replay_header() + f"why = check_sampler({n}, {regs!r}, np.array({psi.tolist()}), {dm}, {nshots}, {seed}, {first!r})\nassert why is None, why\n")
                 ctx.fail(f"sampler:{first}-first", f"registers {regs}, nshots={nshots}, seed={seed}: {why}", py, observed=why, broken=["C03_search_sampler"])
     finally:
         np.random.set_state(state0)
